@@ -7,6 +7,7 @@ import CprocVerif.Lemmas.Lower2IncDec
 import CprocVerif.Lemmas.Lower2Func
 import CprocVerif.Lemmas.Lower2Call
 import CprocVerif.Lemmas.Lower2Arr
+import CprocVerif.Lemmas.Lower2Leaf3
 
 set_option linter.unusedSimpArgs false
 
@@ -49,31 +50,37 @@ theorem sim_all : ∀ fuel, AllStmt fuel := by
       hT.elim Or.inl (fun h => Or.inr (by omega))
     have ih : SimStmt T n := ihs n (Nat.lt_succ_self n) T (hTm n (Nat.le_refl _))
     have ihle : ∀ m, m ≤ n → SimStmt T m := fun m hm => ihs m (Nat.lt_succ_of_le hm) T (hTm m hm)
+    have hcle : ∀ m, m ≤ n → CallOK T m := by
+      intro m hm
+      rcases hT with hP | hd
+      · exact Or.inl hP
+      · exact Or.inr ⟨by omega, funcSim_of_all T m (by omega) (by omega) (ihs m (by omega))⟩
+    have hc : CallOK T n := hcle n (Nat.le_refl _)
     intro st s out lp brk cont c nd nd' pre post env M hex hfr hwt hp hext hits hlp inv
     cases st with
     | skip => exact sim_skip T n hex hp inv
     | decl i t init =>
       cases init with
       | none => exact sim_decl_none T n i t hex hp inv
-      | some e => exact sim_decl_init T n i t e hex hwt hp hext hits inv
-    | assign i t e => exact sim_assign T n i t e hex hwt hp hext hits inv
+      | some e => exact sim_decl_init T n hc i t e hfr hex hwt hp hext hits inv
+    | assign i t e => exact sim_assign T n hc i t e hfr hex hwt hp hext hits inv
     | incdec i t inc => exact sim_incdec T n i t inc hex hwt hp hext hits inv
-    | expr e => exact sim_exprstmt T n e hex hwt hp hext hits inv
-    | ret e => exact sim_ret T n e hex hwt hp hext hits inv
+    | expr e => exact sim_exprstmt T n hc e hfr hex hwt hp hext hits inv
+    | ret e => exact sim_ret T n hc e hfr hex hwt hp hext hits inv
     | seq a b => exact sim_seq T n ih a b hex hfr hwt hp hext hits hlp inv
-    | ite e a => exact sim_ite T n ih e a hex hfr hwt hp hext hits hlp inv
-    | itee e a b => exact sim_itee T n ih e a b hex hfr hwt hp hext hits hlp inv
-    | while_ e b => exact sim_while T n ihle e b hex hfr hwt hp hext hits inv
-    | dowhile b e => exact sim_dowhile T n ihle b e hex hfr hwt hp hext hits inv
-    | for_ e step b => exact sim_for T n ihle e step b hex hfr hwt hp hext hits inv
+    | ite e a => exact sim_ite T n hc ih e a hex hfr hwt hp hext hits hlp inv
+    | itee e a b => exact sim_itee T n hc ih e a b hex hfr hwt hp hext hits hlp inv
+    | while_ e b => exact sim_while T n hcle ihle e b hex hfr hwt hp hext hits inv
+    | dowhile b e => exact sim_dowhile T n hcle ihle b e hex hfr hwt hp hext hits inv
+    | for_ e step b => exact sim_for T n hcle ihle e step b hex hfr hwt hp hext hits inv
     | break_ => exact sim_break T n hex hwt hp inv
     | continue_ => exact sim_continue T n hex hwt hp inv
     | case_ u => exact sim_label T n (.case_ u) (Or.inl ⟨u, rfl⟩) hex hp hits inv
     | default_ => exact sim_label T n .default_ (Or.inr rfl) hex hp hits inv
-    | switch_ e b => exact sim_switch T n ihle e b hex hfr hwt hp hext hits hlp inv
+    | switch_ e b => exact sim_switch T n hc ihle e b hex hfr hwt hp hext hits hlp inv
     | adecl i t cnt xb => exact sim_adecl T n i t cnt xb hex hp inv
     | aload d dt a t cnt xb x => exact sim_aload T n d dt a t cnt xb x hex hfr hwt hp hext hits inv
-    | astore a t cnt xb x v => exact sim_astore T n a t cnt xb x v hex hfr hwt hp hext hits inv
+    | astore a t cnt xb x v => exact sim_astore T n hc a t cnt xb x v hex hfr hwt hp hext hits inv
     | call dst rt fn args =>
       rcases hT with hP | hd
       · simp only [exec, hP, lookup, List.find?_nil] at hex
